@@ -313,9 +313,10 @@ Own(u) ==
          m  == IF t.ok THEN MapIn([a |-> t.a, sp |-> as, ok |-> TRUE], active, Ent(UP[u], t.f, 1, 0, 1, 0), TRUE)
                ELSE [a |-> t.a, sp |-> as, ok |-> FALSE]
      IN /\ al' = m.a /\ as' = m.sp /\ df' = {}
-        /\ priv' = IF t.ok THEN [priv EXCEPT ![u] = t.f] ELSE priv
+        /\ priv' = IF t.ok /\ m.ok THEN [priv EXCEPT ![u] = t.f] ELSE priv
+        /\ dh' = IF t.ok /\ ~m.ok THEN Append(dh, t.f) ELSE dh        \* the mapping failed: the frame stays with the caller
         /\ Step(IF t.ok THEN <<e1, MapEv("own", u, t.f, IF m.ok THEN "ok" ELSE "oom", m.sp, m.a)>> ELSE <<e1>>, <<8, u - 1>>)
-  /\ UNCHANGED <<cfg, ph, active, cursor, kroot, zero, prot, dh>>
+  /\ UNCHANGED <<cfg, ph, active, cursor, kroot, zero, prot>>
 
 \* unmap a privately owned page and give the frame back
 Unmap(u) ==
